@@ -357,7 +357,12 @@ func ProofAuthenticate(cfg ProofConfig, inner AuthenticateFunc) (AuthenticateFun
 	}
 	var cache *nonceCache
 	if !cfg.DisableReplayCache {
-		cache = newNonceCache(time.Duration(cfg.SkewSeconds)*time.Second, capacity, cfg.Now)
+		// The acceptance window is two-sided: a proof stamped ts verifies
+		// while now is in [ts-skew, ts+skew], so one first seen at the early
+		// edge stays valid for 2*skew more seconds. Timestamps are whole
+		// seconds, hence the extra one. A TTL of just skew would forget the
+		// nonce while its proof still verifies.
+		cache = newNonceCache(time.Duration(2*cfg.SkewSeconds+1)*time.Second, capacity, cfg.Now)
 	}
 	required := cfg.Mode == ProofModeRequire
 	local := cfg
